@@ -212,22 +212,23 @@ Definition cname_eqb (a b : cname) : bool :=
   | _, _ => false
   end.
 
-(** One-word names: the name and short form given in help.txt first, then the further spellings
-    the debugger accepts. *)
+(** One-word names: the short form and the name given in help.txt, then the further spellings the
+    debugger accepts.  (The order of a table is immaterial: no two keys are equal up to letter
+    case — [tables_keys_distinct] in CmdProofs.v.) *)
 Definition word_table : list (string * cname) :=
-  [ ("help", Help); ("h", Help); ("--help", Help); ("-h", Help); (":h", Help); ("man", Help);
+  [ ("h", Help); ("help", Help); ("--help", Help); ("-h", Help); (":h", Help); ("man", Help);
     ("info", Help); ("wtf", Help);
-    ("continue", Continue); ("c", Continue); ("cont", Continue);
-    ("print", Print); ("p", Print);
-    ("move", Move); ("m", Move);
-    ("registers", Registers); ("r", Registers); ("reg", Registers);
-    ("goto", Goto); ("g", Goto);
-    ("assembly", Assembly); ("a", Assembly); ("asm", Assembly);
-    ("eval", Eval); ("e", Eval); ("evil", Eval); ("evaluate", Eval);
-    ("reset", Reset); ("z", Reset);
+    ("c", Continue); ("continue", Continue); ("cont", Continue);
+    ("p", Print); ("print", Print);
+    ("m", Move); ("move", Move);
+    ("r", Registers); ("registers", Registers); ("reg", Registers);
+    ("g", Goto); ("goto", Goto);
+    ("a", Assembly); ("assembly", Assembly); ("asm", Assembly);
+    ("e", Eval); ("eval", Eval); ("evil", Eval); ("evaluate", Eval);
+    ("z", Reset); ("reset", Reset);
     ("echo", Echo);
-    ("quit", Quit); ("q", Quit);
-    ("exit", Exit); ("x", Exit); (":q", Exit); (":wq", Exit); ("^C", Exit);
+    ("q", Quit); ("quit", Quit);
+    ("x", Exit); ("exit", Exit); (":q", Exit); (":wq", Exit); ("^C", Exit);
     ("si", StepInto); ("stepinto", StepInto);
     ("so", StepOut); ("stepout", StepOut);
     ("bl", BreakList); ("breaklist", BreakList);
@@ -236,12 +237,12 @@ Definition word_table : list (string * cname) :=
 
 (** Two-word names: `step`/`s` and `break`/`b` followed by a sub-command word. *)
 Definition step_words : list string := ["step"; "s"]%string.
-Definition break_words : list string := ["break"; "b"]%string.
+Definition break_words : list string := ["b"; "break"]%string.
 Definition step_table : list (string * cname) :=
-  [ ("into", StepInto); ("i", StepInto); ("out", StepOut); ("o", StepOut) ]%string.
+  [ ("i", StepInto); ("into", StepInto); ("o", StepOut); ("out", StepOut) ]%string.
 Definition break_table : list (string * cname) :=
-  [ ("list", BreakList); ("l", BreakList); ("add", BreakAdd); ("a", BreakAdd);
-    ("remove", BreakRemove); ("r", BreakRemove) ]%string.
+  [ ("l", BreakList); ("list", BreakList); ("a", BreakAdd); ("add", BreakAdd);
+    ("r", BreakRemove); ("remove", BreakRemove) ]%string.
 
 Definition in_words (w : list N) (ws : list string) : bool :=
   existsb (fun s => ieq w (str s)) ws.
